@@ -116,6 +116,8 @@ def build_native_state(nat, cfg, n=2):
     for p in particle_data(n): ns.add(**p)
     ns.set('integrator', L.enumerators['REB_INTEGRATOR_' + cfg['integrator']])
     for k, v in cfg.get('set', {}).items(): ns.set(k, resolve_value(L, v))
+    if cfg.get('var'):
+        ns.call('reb_simulation_add_variation_1st_order', ctypes.c_int(-1), restype=ctypes.c_int)
     for _ in range(cfg.get('steps', 0)): ns.call('reb_simulation_step')
     return ns
 
